@@ -150,6 +150,9 @@ def _ref_interp(w, n, interps):
 def _interp_job(job):
     cls, shape, ip = job
     FI = "pysmt.substituter.FunctionInterpretation"
+    entry = None
+    if cls.startswith("entry:"):         # the public wrappers, called with interpretations only (no map / None / an empty map)
+        entry, cls = cls[6:], MG
 
     def call(w, it, f):
         sub = w.new_walker(cls, w.env)
@@ -161,6 +164,16 @@ def _interp_job(job):
             bo = proc.build_shape(w, body)
             interps[fs] = w.new_walker(FI, fo, bo)
             ref[fs] = (fo, bo)
+        if entry == "shortcuts.substitute(f, interpretations=I)":
+            return (ref, it.call(it.module_global(w.repo.modules["pysmt.shortcuts"], "substitute"), [f], {"interpretations": interps}))
+        if entry == "shortcuts.substitute(f, {}, I)":
+            return (ref, it.call(it.module_global(w.repo.modules["pysmt.shortcuts"], "substitute"), [f, {}, interps]))
+        if entry == "shortcuts.substitute(f, None, I)":
+            return (ref, it.call(it.module_global(w.repo.modules["pysmt.shortcuts"], "substitute"), [f, None, interps]))
+        if entry == "f.substitute(interpretations=I)":
+            return (ref, it.call(it.getattr(f, "substitute"), [], {"interpretations": interps}))
+        if entry == "f.substitute({}, I)":
+            return (ref, it.call(it.getattr(f, "substitute"), [{}, interps]))
         return (ref, it.call(it.getattr(sub, "substitute"), [f], {"interpretations": interps}))
 
     def post(w, f, r, facts):
@@ -178,7 +191,11 @@ def _interp_job(job):
     res = proc.run_proc(shape, call, post=post, services="full", world_cls=proc.TypedWorld)
     istr = "{%s}" % ", ".join("%s(%s) := %s" % (k[0], ", ".join(proc.shape_str(x) for x in v[0]), proc.shape_str(v[1]))
                               for k, v in ip.items())
-    return [(cls.split(".")[-1], "%r with %s" % (shape, istr), r.kind, str(r.detail), r.result) for r in res]
+    return [(entry or cls.split(".")[-1], "%r with %s" % (shape, istr), r.kind, str(r.detail), r.result) for r in res]
+
+
+ENTRIES = ["shortcuts.substitute(f, interpretations=I)", "shortcuts.substitute(f, {}, I)", "shortcuts.substitute(f, None, I)",
+           "f.substitute(interpretations=I)", "f.substitute({}, I)"]
 
 
 def _job(job):
@@ -243,6 +260,7 @@ def run(ctx):
         jobs.append((MS, shape, mp))
         jobs.append(("FNode.substitute", shape, mp))
     ijobs = [(c, shape, ip) for shape, ip in interp_cases() for c in (MG, MS)]
+    ijobs += [("entry:" + e, shape, ip) for shape, ip in interp_cases()[:6:2] for e in ENTRIES]
     for res in parallel_map(_job, jobs) + parallel_map(_interp_job, ijobs):
         for name, case, kind, detail, result in res:
             if kind == "valid":
